@@ -13,22 +13,39 @@
      - list.pop() / list[-1] on an empty Python list raise IndexError (werr below).
    Abstractions: symbols are numbers; a formula is an opaque atom with its list of free symbols
    (after `formula.simplify()`), or the negation of a formula; reply texts are abstracted to
-   success / error / verdict / value.  Sorts (declare-sort) are not modelled: the generated
-   histories use Bool / BitVec / Int only.  A history ends at the first exception the wrapper
+   success / error / verdict / value.  Custom sorts of arity 0 are modelled (declared_sorts, declare-sort,
+   separate name space); parametric sorts are not.  A history ends at the first exception the wrapper
    raises (the behaviour of a caller that goes on after an exception is not modelled). *)
 From Coq Require Import List Bool Arith.
 Import ListNotations.
 Open Scope bool_scope.
 
+(* Two SEPARATE name spaces, as in SMT-LIB: function symbols and sort symbols.  The same number
+   may be the name of a symbol and of a (custom, arity 0) sort at once. *)
 Definition sym := nat.
+Definition sort := nat.
 
-Inductive form := FAtom (id : nat) (fv : list sym) | FNot (f : form).
-Fixpoint fvs (f : form) : list sym :=
-  match f with FAtom _ fv => fv | FNot g => fvs g end.
+(* An opaque atom with its free symbols, each with its custom sort if it has one (None: Bool,
+   Int, BitVec); or the negation of a formula. *)
+Inductive form := FAtom (id : nat) (fv : list (sym * option sort)) | FNot (f : form).
+Fixpoint fva (f : form) : list (sym * option sort) :=
+  match f with FAtom _ fv => fv | FNot g => fva g end.
+Definition fvs (f : form) : list sym := map fst (fva f).
+Fixpoint sorts_of (l : list (sym * option sort)) : list sort :=
+  match l with
+  | [] => []
+  | (_, Some s) :: r => s :: sorts_of r
+  | (_, None) :: r => sorts_of r
+  end.
+(* self.to.get_types(formula, custom_only=True) for quantifier-free formulas over constants *)
+Definition fsorts (f : form) : list sort := sorts_of (fva f).
+(* symbols of built-in sorts *)
+Definition plain (l : list sym) : list (sym * option sort) := map (fun x => (x, None)) l.
 
 Inductive command :=
 | CSetOption | CSetLogic
-| CDeclare (s : sym)
+| CDeclareSort (s : sort)
+| CDeclare (x : sym) (so : option sort)
 | CAssert (f : form)
 | CPush (n : nat)
 | CPop (n : nat)
@@ -42,37 +59,60 @@ Definition mem (x : sym) (l : list sym) : bool := existsb (Nat.eqb x) l.
 Definition declared_in (x : sym) (st : list (list sym)) : bool := existsb (mem x) st.
 
 (* ------------------------------------------------------------------ wrapper *)
-(* declared_vars, top of the Python list (index -1) first; pending_pop; werr = an IndexError
-   was raised inside the wrapper (absorbing: nothing is done afterwards). *)
-Record wstate := mkW { decl : list (list sym); pending : bool; werr : bool }.
-Definition w_init : wstate := mkW [[]] false false.
+(* declared_vars and declared_sorts, top of the Python lists (index -1) first; pending_pop;
+   werr = an IndexError was raised inside the wrapper (absorbing: nothing is done afterwards). *)
+Record wstate := mkW { decl : list (list sym); sdecl : list (list sort); pending : bool; werr : bool }.
+Definition w_init : wstate := mkW [[]] [[]] false false.
 
 Definition M := wstate -> wstate * list command.
 Definition ret : M := fun w => (w, []).
 Definition seq (a b : M) : M := fun w =>
   let (w1, c1) := a w in let (w2, c2) := b w1 in (w2, c1 ++ c2).
 Definition guard (a : M) : M := fun w => if werr w then (w, []) else a w.
-Definition raise (w : wstate) : wstate := mkW (decl w) (pending w) true.
+Definition raise (w : wstate) : wstate := mkW (decl w) (sdecl w) (pending w) true.
 
 (* _send_command + the reply read that belongs to it (see `reads`) *)
 Definition emit (c : command) : M := guard (fun w => (w, [c])).
-(* self.declared_vars.append(set()) *)
-Definition w_push_level : M := guard (fun w => (mkW ([] :: decl w) (pending w) false, [])).
-(* self.declared_vars.pop() *)
+(* self.declared_vars.append(set()); self.declared_sorts.append(set()) *)
+Definition w_push_level : M :=
+  guard (fun w => (mkW ([] :: decl w) ([] :: sdecl w) (pending w) false, [])).
+(* self.declared_vars.pop(); self.declared_sorts.pop() *)
 Definition w_pop_level : M := guard (fun w =>
-  match decl w with [] => (raise w, []) | _ :: r => (mkW r (pending w) false, []) end).
+  match decl w, sdecl w with
+  | _ :: r, _ :: rs => (mkW r rs (pending w) false, [])
+  | _, _ => (raise w, [])
+  end).
 (* self.declared_vars[-1].add(symbol) *)
 Definition w_record (s : sym) : M := guard (fun w =>
-  match decl w with [] => (raise w, []) | top :: r => (mkW ((s :: top) :: r) (pending w) false, []) end).
-Definition set_pending (b : bool) : M := guard (fun w => (mkW (decl w) b false, [])).
+  match decl w with
+  | [] => (raise w, [])
+  | top :: r => (mkW ((s :: top) :: r) (sdecl w) (pending w) false, [])
+  end).
+(* self.declared_sorts[-1].add(sort) *)
+Definition w_record_sort (s : sort) : M := guard (fun w =>
+  match sdecl w with
+  | [] => (raise w, [])
+  | top :: r => (mkW (decl w) ((s :: top) :: r) (pending w) false, [])
+  end).
+Definition set_pending (b : bool) : M := guard (fun w => (mkW (decl w) (sdecl w) b false, [])).
 
+(* _declare_sort *)
+Definition declare_sort (s : sort) : M := seq (emit (CDeclareSort s)) (w_record_sort s).
+(* for s in sorts: if all(s not in ds for ds in self.declared_sorts): self._declare_sort(s) *)
+Fixpoint declare_missing_sorts (ss : list sort) : M :=
+  match ss with
+  | [] => ret
+  | d :: r => seq (guard (fun w => if declared_in d (sdecl w) then (w, []) else declare_sort d w))
+                  (declare_missing_sorts r)
+  end.
 (* _declare_variable *)
-Definition declare_var (s : sym) : M := seq (emit (CDeclare s)) (w_record s).
+Definition declare_var (d : sym * option sort) : M :=
+  seq (emit (CDeclare (fst d) (snd d))) (w_record (fst d)).
 (* for d in deps: if all(d not in dv for dv in self.declared_vars): self._declare_variable(d) *)
-Fixpoint declare_missing (fv : list sym) : M :=
+Fixpoint declare_missing (fv : list (sym * option sort)) : M :=
   match fv with
   | [] => ret
-  | d :: r => seq (guard (fun w => if declared_in d (decl w) then (w, []) else declare_var d w))
+  | d :: r => seq (guard (fun w => if declared_in (fst d) (decl w) then (w, []) else declare_var d w))
                   (declare_missing r)
   end.
 
@@ -82,11 +122,13 @@ Definition clear_pending : M := guard (fun w =>
 
 Fixpoint repeat_m (n : nat) (a : M) : M :=
   match n with 0 => ret | S k => seq a (repeat_m k a) end.
-(* self.declared_vars = [set()] *)
-Definition w_reset_record : M := guard (fun w => (mkW [[]] (pending w) false, [])).
+(* self.declared_vars = [set()]; self.declared_sorts = [set()] *)
+Definition w_reset_record : M := guard (fun w => (mkW [[]] [[]] (pending w) false, [])).
 
+(* sorts first, then symbols, then the assertion *)
 Definition add_assertion (f : form) : M :=
-  seq clear_pending (seq (declare_missing (fvs f)) (emit (CAssert f))).
+  seq clear_pending
+      (seq (declare_missing_sorts (fsorts f)) (seq (declare_missing (fva f)) (emit (CAssert f)))).
 (* for _ in range(levels): append / pop;  then the command *)
 Definition push (n : nat) : M :=
   seq clear_pending (seq (repeat_m n w_push_level) (emit (CPush n))).
@@ -139,15 +181,19 @@ Definition final (h : list api_call) : wstate := fst (run_api w_init h).
 
 (* ------------------------------------------------------------ strict solver *)
 (* SMT-LIB 2.6 assertion stack with :global-declarations false: a non-empty list of levels (top
-   first), each with the symbols declared and the formulas asserted at that level. *)
-Record level := mkL { ldecl : list sym; lasserts : list form }.
+   first), each with the symbols declared, the formulas asserted and the sorts declared at that
+   level.  Sorts and function symbols live in separate name spaces. *)
+Record level := mkL { ldecl : list sym; lasserts : list form; lsorts : list sort }.
 Definition sstate := list level.
-Definition s_init : sstate := [mkL [] []].
+Definition s_init : sstate := [mkL [] [] []].
 
 Inductive reply := RSuccess | RError | RVerdict (b : bool) | RValue (t : list sym).
 Definition is_error (r : reply) : bool := match r with RError => true | _ => false end.
 
 Definition s_declared (x : sym) (s : sstate) : bool := existsb (fun l => mem x (ldecl l)) s.
+Definition s_sort_declared (x : sort) (s : sstate) : bool := existsb (fun l => mem x (lsorts l)) s.
+Definition sort_ok (so : option sort) (s : sstate) : bool :=
+  match so with None => true | Some x => s_sort_declared x s end.
 Definition live (s : sstate) : list form := flat_map lasserts s.
 
 Section Spec.
@@ -157,20 +203,28 @@ Section Spec.
   Definition spec_step (s : sstate) (c : command) : sstate * reply :=
     match c with
     | CSetOption | CSetLogic | CExit => (s, RSuccess)
-    | CDeclare x =>
-        if s_declared x s then (s, RError)          (* declared exactly once while in scope *)
+    | CDeclareSort x =>
+        if s_sort_declared x s then (s, RError)     (* a sort is declared once while in scope *)
         else match s with
              | [] => (s, RError)
-             | l :: r => (mkL (x :: ldecl l) (lasserts l) :: r, RSuccess)
+             | l :: r => (mkL (ldecl l) (lasserts l) (x :: lsorts l) :: r, RSuccess)
              end
+    | CDeclare x so =>
+        if s_declared x s then (s, RError)          (* declared exactly once while in scope *)
+        else if sort_ok so s                         (* its sort is declared before *)
+        then match s with
+             | [] => (s, RError)
+             | l :: r => (mkL (x :: ldecl l) (lasserts l) (lsorts l) :: r, RSuccess)
+             end
+        else (s, RError)
     | CAssert f =>
         if forallb (fun x => s_declared x s) (fvs f) (* declared before use *)
         then match s with
              | [] => (s, RError)
-             | l :: r => (mkL (ldecl l) (f :: lasserts l) :: r, RSuccess)
+             | l :: r => (mkL (ldecl l) (f :: lasserts l) (lsorts l) :: r, RSuccess)
              end
         else (s, RError)
-    | CPush n => (repeat (mkL [] []) n ++ s, RSuccess)
+    | CPush n => (repeat (mkL [] [] []) n ++ s, RSuccess)
     | CPop n => if n <? length s then (skipn n s, RSuccess) else (s, RError)
     | CCheckSat => (s, RVerdict (decide (live s)))
     | CGetValue t =>
@@ -335,10 +389,11 @@ Fixpoint insert_nat (x : nat) (l : list nat) : list nat :=
   end.
 Definition sort_nat (l : list nat) : list nat := fold_right insert_nat [] l.
 Definition set_eqb (a b : list nat) : bool := list_nat_eqb (sort_nat a) (sort_nat b).
-Definition run_key (c : command) : option (bool * nat) :=
+Definition run_key (c : command) : option (nat * nat) :=
   match c with
-  | CDeclare s => Some (true, s)
-  | CGetValue [s] => Some (false, s)
+  | CDeclare s _ => Some (0, s)
+  | CGetValue [s] => Some (1, s)
+  | CDeclareSort s => Some (2, s)
   | _ => None
   end.
 Fixpoint insert_cmd (c : command) (l : list command) : list command :=
@@ -346,7 +401,7 @@ Fixpoint insert_cmd (c : command) (l : list command) : list command :=
   | [] => [c]
   | d :: r => match run_key c, run_key d with
               | Some (kc, sc), Some (kd, sd) =>
-                  if Bool.eqb kc kd && Nat.ltb sd sc then d :: insert_cmd c r else c :: l
+                  if Nat.eqb kc kd && Nat.ltb sd sc then d :: insert_cmd c r else c :: l
               | _, _ => c :: l
               end
   end.
@@ -356,7 +411,13 @@ Definition cmd_eqb (a b : command) : bool :=
   match a, b with
   | CSetOption, CSetOption | CSetLogic, CSetLogic | CCheckSat, CCheckSat
   | CResetAssertions, CResetAssertions | CExit, CExit => true
-  | CDeclare x, CDeclare y => Nat.eqb x y
+  | CDeclare x so, CDeclare y so' =>
+      Nat.eqb x y && match so, so' with
+                     | None, None => true
+                     | Some a, Some b => Nat.eqb a b
+                     | _, _ => false
+                     end
+  | CDeclareSort x, CDeclareSort y => Nat.eqb x y
   | CAssert f, CAssert g => set_eqb (fvs f) (fvs g)
   | CPush n, CPush m | CPop n, CPop m => Nat.eqb n m
   | CGetValue t, CGetValue u => set_eqb t u
@@ -372,22 +433,22 @@ Fixpoint cmds_eqb (a b : list command) : bool :=
    free variables) or of single-symbol value queries (get_model iterating declared_vars[-1]),
    which elements of the Python set were handled before the failing one depends on the set's
    iteration order: that trailing run is compared by kind and presence only. *)
-Definition run_kind (c : command) : option bool := option_map fst (run_key c).
-Definition same_kind (k : option bool) (c : command) : bool :=
+Definition run_kind (c : command) : option nat := option_map fst (run_key c).
+Definition same_kind (k : option nat) (c : command) : bool :=
   match k, run_kind c with
-  | Some a, Some b => Bool.eqb a b
+  | Some a, Some b => Nat.eqb a b
   | _, _ => false
   end.
-Fixpoint drop_run (k : option bool) (l : list command) : list command :=
+Fixpoint drop_run (k : option nat) (l : list command) : list command :=
   match l with [] => [] | c :: r => if same_kind k c then drop_run k r else l end.
-Definition strip_run (l : list command) : list command * option bool :=
+Definition strip_run (l : list command) : list command * option nat :=
   let r := rev l in
   let k := match r with c :: _ => run_kind c | [] => None end in
   (rev (drop_run k r), k).
-Definition kind_eqb (a b : option bool) : bool :=
+Definition kind_eqb (a b : option nat) : bool :=
   match a, b with
   | None, None => true
-  | Some x, Some y => Bool.eqb x y
+  | Some x, Some y => Nat.eqb x y
   | _, _ => false
   end.
 
